@@ -233,3 +233,64 @@ void vf_harness(void) { bool c; readBody_outer_turn(c); VF_CANARY(); }
     trusted=['Socket::available / waitInput at end of stream: 0 and true (the criterion Socket_::disconnected() itself uses)'],
 )
 UNITS += [read_body_outer]
+
+# ---- HttpMessage::readHeaders: one turn of the header loop
+read_headers = Unit(
+    'HttpMessage_readHeaders_turn', 'C09',
+    cuts=[Cut('rh', HC, r'^\twhile \(line = _socket->readLine\(\), line != "\\r"\)\s*$',
+              rules=[(r'setHeader\([^;]*\);', 'g_headers++;', None), (r'\bcontinue;', '{ g_continue = 1; return; }', None), (r'line\.trim\(\);', 'LINE_TRIM();', 1),
+                     (r"line\.indexOf\(':'\)", 'g_colon', 1), (r'_socket->close\(\);', 'g_closed = 1;', 1), (r'line\.length\(\)', 'g_linelen', None),
+                     (r'isspace\(line\[0\]\)', 'vf_isspace(LINE0())', None), (r'line\[0\]', 'LINE0()', None),
+                     (r'headerName = line\.substring\(0, i\);', 'SUBSTRING_PRE(g_linelen, 0, i);', 1),
+                     (r'headerValue = \(i < g_linelen - 1\) \? line\.substring\(i \+ 2\) : String\(\);', 'if (i < g_linelen - 1) SUBSTRING_PRE(g_linelen, i + 2, g_linelen);', 1)])],
+    text=PRE + r'''
+int g_linelen, g_colon, g_headers, g_continue, g_closed, g_returned; char g_first;
+static int vf_isspace(int c) { return c == ' ' || (c >= 9 && c <= 13); }        /* isspace in the C locale */
+/* the line Socket::readLine() just returned: length g_linelen, first character g_first (the NUL terminator when the line is empty,
+   which is what readLine returns once the peer has closed), position of the first ':' g_colon or -1 */
+static char LINE0(void) { return g_linelen == 0 ? (char)0 : g_first; }
+static void LINE_TRIM(void) { int cut = nondet_int(); __CPROVER_assume(0 <= cut && cut <= g_linelen); g_linelen -= cut; if (g_colon >= g_linelen) g_colon = -1; }
+void readHeaders_turn(void)
+__CPROVER_requires(0 <= g_linelen && g_linelen <= 16001 && -1 <= g_colon && g_colon < g_linelen && g_first != 0 && g_headers == 0 && g_continue == 0 && g_closed == 0)
+/* an empty line (end of stream) ends header reading: the loop cannot spin on a closed connection; substring arguments in range */
+__CPROVER_ensures(__CPROVER_old(g_linelen) == 0 ==> (g_closed && !g_continue))
+__CPROVER_assigns(g_linelen, g_colon, g_headers, g_continue, g_closed)
+@@rh@@
+void vf_harness(void) { readHeaders_turn(); VF_CANARY(); }
+''',
+    entry='readHeaders_turn',
+    desc='HttpMessage::readHeaders, one turn for ANY line: once the peer has closed (readLine returns "") the loop is left and the connection dropped; substring arguments in range',
+    functions=['HttpMessage::readHeaders'], trusted=['Socket::readLine returns "" after the peer closed; String::trim only shortens; indexOf = first position or -1'],
+)
+
+# ---- Url::parseQuery: percent-decoding must come AFTER splitting on the delimiters and AFTER the '+' -> ' ' substitution
+parse_query = Unit(
+    'Url_parseQuery_order', 'C09',
+    cuts=[Cut('pq', HC, r'^Dic<> Url::parseQuery\(const String& querystring\)\s*$',
+              rules=[(r'Dic<> query;', '', None), (r'return query;', 'return;', None), (r'return ([^;]*\.split\([^;]*\));', r'{ TV vf_r = \1; (void)vf_r; return; }', None),
+                     (r'Dic<> q = ', 'TV q = ', None),
+                     (r"(\w+)\.replace\('\+', ' '\)", r'T_REPLACE_PLUS(\1)', None), (r"(T_REPLACE_PLUS\(\w+\)|\w+|Url::decode\([^()]*(?:\([^()]*\))?[^()]*\))\.split\('&', '='\)", r'T_SPLIT(\1)', None),
+                     (r'foreach2\(String& k, const String& v, q\)', 'for (TV k = T_ITEM(q), v = T_ITEM(q); vf_once; vf_once = 0)', None),
+                     (r'query\[Url::decode\(k\)\] = Url::decode\(v\);', 'T_STORE(T_DECODE(k), T_DECODE(v));', None), (r'Url::decode\(', 'T_DECODE(', None)])],
+    text=PRE + r'''
+/* abstract view of a string for this question: has it been percent-decoded yet?  (x-www-form-urlencoded, WHATWG URL 5.1:
+   split on '&' and '=', replace '+' by space, and only then percent-decode each name and value - an encoded "%26", "%3D" or "%2B" must not act as a delimiter or a space) */
+typedef struct TV { bool decoded; bool plus_done; bool split_done; } TV;
+int g_stored, g_bad; int vf_once = 1;
+static TV T_REPLACE_PLUS(TV s) { if (s.decoded) g_bad = 1; __CPROVER_assert(!s.decoded, "'+' is replaced by a space BEFORE percent-decoding (a decoded \"%2B\" is a literal plus)"); TV r = s; r.plus_done = true; return r; }
+static TV T_SPLIT(TV s) { if (s.decoded) g_bad = 1; __CPROVER_assert(!s.decoded, "the query is split on '&' and '=' BEFORE percent-decoding (a decoded \"%26\" / \"%3D\" is data)"); TV r = s; r.split_done = true; return r; }
+static TV T_ITEM(TV q) { return q; }
+static TV T_DECODE(TV s) { TV r = s; r.decoded = true; return r; }
+static void T_STORE(TV k, TV v) { __CPROVER_assert(k.decoded && v.decoded && k.split_done && v.split_done && k.plus_done && v.plus_done, "names and values are stored split, plus-substituted and percent-decoded"); g_stored++; }
+void parseQuery(TV querystring)
+__CPROVER_requires(!querystring.decoded && !querystring.plus_done && !querystring.split_done && g_stored == 0 && g_bad == 0 && vf_once == 1)
+__CPROVER_ensures(!g_bad)
+__CPROVER_assigns(g_stored, g_bad, vf_once)
+@@pq@@
+void vf_harness(void) { TV q; parseQuery(q); VF_CANARY(); }
+''',
+    entry='parseQuery', unwind=3,
+    desc='Url::parseQuery at the level of the ORDER of operations: the query string is split and plus-substituted while still percent-encoded, and every stored name/value is decoded afterwards',
+    functions=['Url::parseQuery'], trusted=['String::replace / split(sep1, sep2) / Url::decode as abstract stages (their own behaviour is not part of this unit)'],
+)
+UNITS += [read_headers, parse_query]
